@@ -105,11 +105,16 @@ def from_term(t):
 
 
 class IntS(int):
-    pass
+    # like the members of an IntEnum: a repr of its own (json and the library must not use it)
+    def __repr__(self):
+        return '<IntS %d>' % int(self)
+    __str__ = __repr__
 
 
 class FloatS(float):
-    pass
+    def __repr__(self):
+        return '<FloatS %s>' % float.__repr__(self)
+    __str__ = __repr__
 
 
 class StrS(str):
